@@ -2046,7 +2046,11 @@ impl Incentive {
                 let unclaimed_epochs = match last_claim {
                     Some(l) => op.epoch - l,
                     None => {
-                        let first = pre.flows.iter().map(|f| f.start).min().unwrap_or(op.epoch).min(cfg.e0);
+                        // an address with no weight entry at all starts every flow's loop at epoch 0 (the
+                        // contract's `last_epoch_user_weight_update` stays 0): without a live weight the
+                        // count is taken from 0, which can only exempt more claims, never fewer
+                        let has_weight = pre.aw.get(ai).map(|w| *w > 0).unwrap_or(false);
+                        let first = if has_weight { pre.flows.iter().map(|f| f.start).min().unwrap_or(op.epoch).min(cfg.e0) } else { 0 };
                         op.epoch + 1 - first.min(op.epoch)
                     }
                 };
